@@ -231,34 +231,44 @@ class Check:
             if r == 'unknown':
                 self.inconclusive.append('TIMEOUT: %s: %s' % (name, m))
                 return False
-            try:
-                cex = on_cex(m)
-            except Inconclusive as e:
-                self.inconclusive.append('ENCODING-MISMATCH: %s: %s' % (name, e))
-                return False
-            self.replayed += 1
-            if not cex.get('reproduced'):
-                fired = cex.get('replay', {}).get('fired') if isinstance(cex.get('replay'), dict) else None
-                self.inconclusive.append('ENCODING-MISMATCH: %s: model does not reproduce natively (fired: %s): %s'
-                                         % (name, fired, json.dumps(cex.get('replay'), ensure_ascii=False)[:500]))
-                return False
-            kf = self.match_known(cex['key'])
-            if kf is not None and block is not None:
-                msg = 'KNOWN-FINDING: property=%s %s' % (self.pid, kf.get('what', cex['what']))
-                if msg not in self.known_hits:
-                    self.known_hits.append(msg)
-                    print(msg, flush=True)
-                b = block(m, cex)
-                if b is None:
-                    # cannot exclude the role: treat the obligation as holding apart from the finding
-                    self.discharged += 1
-                    return True
-                extra.append(b)
+            verdict, b_ = self._triage(name, m, on_cex, block)
+            if verdict == 'block':
+                extra.append(b_)
                 continue
-            self.violations.append(Violation(name, cex['key'], cex['what'], cex['replay']))
+            if verdict == 'holds':
+                self.discharged += 1
+                return True
             return False
         self.inconclusive.append('too many known findings matched in ' + name)
         return False
+
+    def _triage(self, name, m, on_cex, block):
+        """replay a satisfying model: -> ('block', constraint) for a listed known finding whose role can be excluded,
+        ('holds', None) for one whose role cannot be excluded, ('fail', None) after recording a violation / inconclusive"""
+        try:
+            cex = on_cex(m)
+        except Inconclusive as e:
+            self.inconclusive.append('ENCODING-MISMATCH: %s: %s' % (name, e))
+            return 'fail', None
+        self.replayed += 1
+        if not cex.get('reproduced'):
+            fired = cex.get('replay', {}).get('fired') if isinstance(cex.get('replay'), dict) else None
+            self.inconclusive.append('ENCODING-MISMATCH: %s: model does not reproduce natively (fired: %s): %s'
+                                     % (name, fired, json.dumps(cex.get('replay'), ensure_ascii=False)[:500]))
+            return 'fail', None
+        kf = self.match_known(cex['key'])
+        if kf is not None and block is not None:
+            msg = 'KNOWN-FINDING: property=%s %s' % (self.pid, kf.get('what', cex['what']))
+            if msg not in self.known_hits:
+                self.known_hits.append(msg)
+                if not getattr(self, 'is_worker', False):
+                    print(msg, flush=True)
+            b = block(m, cex)
+            if b is None:
+                return 'holds', None
+            return 'block', b
+        self.violations.append(Violation(name, cex['key'], cex['what'], cex['replay']))
+        return 'fail', None
 
     def prove_none(self, name, assumptions, labelled_bad, on_cex, block=None):
         """obligation: none of the labelled bad conditions is satisfiable under the assumptions.  The labels of the
@@ -281,26 +291,41 @@ class Check:
                 cex['replay']['fired'] = fired[:6]
             return cex
         if len(exprs) > 24:
-            # many path results: decide the disjunction quickly if possible, else one query per bad condition
-            r, m = self.solve(list(assumptions) + [z3.Or(*exprs)], timeout_ms=min(20000, self.query_timeout_ms))
-            if r == 'unsat':
-                self.obligations += 1
-                self.discharged += 1
-                return True
-            if r == 'unknown':
-                undecided = 0
-                for lab, e in labelled_bad:
-                    r1, m1 = self.solve(list(assumptions) + [e])
-                    if r1 == 'sat':
-                        return self.prove(name, assumptions, z3.Not(e), wrapped, block)
-                    if r1 == 'unknown':
-                        undecided += 1
-                self.obligations += 1
-                if undecided:
-                    self.inconclusive.append('TIMEOUT: %s: %d of %d bad conditions undecided' % (name, undecided, len(exprs)))
-                    return False
-                self.discharged += 1
-                return True
+            # many path results: decide the disjunction quickly if possible, else one query per bad condition; a model that
+            # matches a listed known finding adds its blocking constraint and the search goes on
+            self.obligations += 1
+            extra = []
+            for _ in range(17):
+                r, m = self.solve(list(assumptions) + extra + [z3.Or(*exprs)], timeout_ms=min(20000, self.query_timeout_ms))
+                if r == 'unsat':
+                    self.discharged += 1
+                    return True
+                if r == 'unknown':
+                    undecided, hit = 0, None
+                    for lab, e in labelled_bad:
+                        r1, m1 = self.solve(list(assumptions) + extra + [e])
+                        if r1 == 'sat':
+                            hit = m1
+                            break
+                        if r1 == 'unknown':
+                            undecided += 1
+                    if hit is None:
+                        if undecided:
+                            self.inconclusive.append('TIMEOUT: %s: %d of %d bad conditions undecided' % (name, undecided, len(exprs)))
+                            return False
+                        self.discharged += 1
+                        return True
+                    m = hit
+                verdict, b_ = self._triage(name, m, wrapped, block)
+                if verdict == 'block':
+                    extra.append(b_)
+                    continue
+                if verdict == 'holds':
+                    self.discharged += 1
+                    return True
+                return False
+            self.inconclusive.append('too many known findings matched in ' + name)
+            return False
         return self.prove(name, assumptions, goal, wrapped, block)
 
     def match_known(self, key):
@@ -332,6 +357,7 @@ class Check:
         for m in d['known_hits']:
             if m not in self.known_hits:
                 self.known_hits.append(m)
+                print(m, flush=True)
         self.inconclusive.extend(d['inconclusive'])
         for k in ('outside', 'assumptions', 'notes'):
             for x in d[k]:
@@ -438,6 +464,7 @@ def run_parallel(ck, worker, jobs, nproc=None):
 
 def _guarded_worker(worker, job, tier, seed, pid):
     sub = Check(pid, tier, seed)
+    sub.is_worker = True
     t0_ = time.time()
     try:
         worker(sub, job)
